@@ -37,10 +37,11 @@ BUILDS = {
     "clang-strict": ("clang", SAN + ["-fno-sanitize-recover=all"]),
     "gcc-recover": ("gcc", SAN + ["-fsanitize-recover=undefined"]),
 }
-# the overlapping strcpy (main.c:278) aborts every run under ASan's default options; with replace_str=0 later
-# errors become visible
-ASAN_LATER = "replace_str=0:detect_leaks=0:allocator_may_return_null=1"
+# ASan runs with its default interceptors (str*, mem*, printf family): the overlapping strcpy of
+# dirname()/basename() results (fixed by /repo 4767b02) would abort every run again if it came back.
+# Leak detection is off (the translator is a short-lived process that frees nothing on purpose).
 ASAN_DEFAULT = "detect_leaks=0:allocator_may_return_null=1"
+ASAN_LATER = ASAN_DEFAULT
 
 # (sanitizer kind, function of the first w2c2 frame or file:line) -> stable finding key
 KNOWN_SITES = [
@@ -126,7 +127,9 @@ def run_case(exe, workdir, idx, data, opts, asan_opts=ASAN_LATER, outname="m.c",
 # ---------------------------------------------------------------------------------------------- witnesses
 
 def witnesses():
-    """Small hand-built valid modules aimed at the suspected defects: [(name, bytes, options, asan options)]."""
+    """Small hand-built valid modules, one per defect this check found on the pinned tree (all fixed in /repo:
+    4767b02 152af65 19ca5d2 b750457 415f201): they run first and must stay clean — each fires again if its fix is
+    reverted.  [(name, bytes, options, asan options)]"""
     import wasmgen.wasm_ast as A
     from wasmgen import encode
     out = []
